@@ -183,7 +183,8 @@ func VerifC26_Blocker() {
 					}
 				}
 			}
-		case 4: // blocking sweep
+		case 4: // blocking sweep (the network may be up or down at that moment)
+			bl.setAvail(zzverif.Bool("avail-at-sweep"))
 			verifC26fire(wake)
 			for i := range ref {
 				if ref[i].flagged && ref[i].ticks > T {
